@@ -365,6 +365,10 @@ def run(run):
     r = run.tlc("RngIso", cfg, label="RngIso/exhaustive", timeout=3000)
     if r.violated:
         raise core.MachineryError("RngIso.tla violates its own property %s" % r.violated)
+    # the Def layer does not depend on the draw protocol: the same properties under "initial screen from a spawned child stream"
+    rc_ = run.tlc("RngIso", "RngIso_child.cfg", label="RngIso/child-stream-protocol", timeout=3000)
+    if rc_.violated:
+        raise core.MachineryError("RngIso.tla (child-stream protocol) violates %s" % rc_.violated)
     rs = run.tlc("RngIso", "RngIso_sim.cfg", label="RngIso/simulate", simulate=dict(num=300 if quick else 3000), depth=11,
                  workers=4, timeout=3000)
     if rs.violated:
